@@ -992,7 +992,7 @@ def builder_columns(chk, src):
         tn = Sym("tn", postorder_list=lambda: list(order))
         builtins = {
             "np": Sym("np", zeros=NP.zeros, concatenate=NP.concatenate, roll=NP.roll, all=NP.all, array=lambda x, **k: _Cmp(x), uint16="uint16"),
-            "chain": lambda *a: [x for part in a for x in part],
+            "chain": __import__("itertools").chain,
             "Model": lambda basis, terms: Sym("model", basis=list(basis), qn_size=1),
             "_terms_to_table": terms_to_table, "_construct_symbolic_mpo_one_site": one_site,
             "OpTuple": lambda *a, **k: "dummy", "compose_symbolic_mo_general": lambda *a: "mo", "List": None,
@@ -1464,14 +1464,18 @@ class _QN(Sym):
 
 def compress_sweep(chk, src):
     chk.rule("compress-sweep", "abstract run of TTNS.compress on symbolic trees: every bond is truncated exactly once, each time with the gauge centre on the bond's parent node "
-             "(so that the discarded singular values are the truncation error), and the centre returns to the root", 6)
+             "(so that the discarded singular values are the truncation error) and with the temporary limit of the call, and the centre returns to the root", 6)
     fi = src.func(TREE, "compress_recursion")
     for topo in SWEEP_TOPOLOGIES:
         w, st = _sweep_world(src, topo, [(TREE, "compress_recursion")])
         done = []
 
+        limit = Sym("the temporary bond limit of this call")
+        limits = []
+
         def compress_node(node, ichild, temp_m_trunc=None, cano_child=True):
             c = node.children[ichild]
+            limits.append((c._name, temp_m_trunc))
             if st.centre != ("node", node._name):
                 st.bad(f"compress_node({node}, {ichild}) while the gauge centre is at {st.centre}: the singular values are not Schmidt coefficients")
             done.append(c._name)
@@ -1480,8 +1484,11 @@ def compress_sweep(chk, src):
             st.centre = ("node", c._name if cano_child else node._name)
             return Blob("s")
         w.overrides[("ttns", "compress_node")] = compress_node
-        w.interp.call_function(fi, [w.ttns.root, w.ttns, {}, None])
+        w.interp.call_function(fi, [w.ttns.root, w.ttns, {}, limit])
         bonds = sorted(n._name for n in w.snodes[1:])
+        unlimited = [b for b, l_ in limits if l_ is not limit]
+        if unlimited:
+            st.bad(f"the bonds above {unlimited} are truncated without the temporary limit the caller gave (they fall back to the configuration and may exceed it)")
         ok = not st.problems and sorted(done) == bonds and st.centre == ("node", w.snodes[0]._name)
         chk.ob("compress-sweep", f"compress_recursion [{topo}]", ok, fi.where, st.problems[:3] or {"bonds truncated": done, "centre": st.centre},
                {"bonds truncated": bonds, "centre": ("node", w.snodes[0]._name)}, line=fi.node.lineno,
@@ -2018,7 +2025,12 @@ def time_decoding(chk, src):
             pass
         state = Z("state", evolve_config=Sym("cfg", method="m"))
         state.__dict__["copy"] = lambda: Z("copy", normalize=lambda kind: None)
-        state.__dict__["to_complex"] = lambda: Z("complex-copy", normalize=lambda kind: None)
+
+        def to_complex(inplace=False):
+            if inplace:
+                raise AnalysisError("TTNS.evolve converts its receiver in place (not modelled by this run; the effect rule of C13 judges it)")
+            return Z("complex-copy", normalize=lambda kind: None)
+        state.__dict__["to_complex"] = to_complex
 
         class TV(Sym):
             """the step handed in by the caller"""
